@@ -89,6 +89,7 @@ class Inputs(html.parser.HTMLParser):
             self.fields[a['name']] = a.get('value')
 
 
+CANON = {'GivenName': 'givenName', 'SN': 'sn', 'MAIL': 'mail'}
 TZ = {'UTC': 'UTC0', 'east9': 'JST-9', 'west5': 'EST5'}
 
 
@@ -119,6 +120,8 @@ def replay_in_zone(case):
                 'eduPersonNickname': ['not-asked-for']}
     if scn['unknownAttr']:
         identity['verifCustomAttribute'] = ['custom-value']
+    if scn.get('keyStyle') == 'caseVariant':
+        identity = dict(({'givenName': 'GivenName', 'sn': 'SN', 'mail': 'MAIL'}.get(k, k), v) for k, v in identity.items())
     now = spc.now()
     subject = 'subject-' + ('%06d' % rng.randint(0, 999999))
     sign_alg, digest_alg = ALG[scn['alg']]
@@ -178,7 +181,7 @@ def main():
         seen, keep = set(), []
         for c in cases:
             s = c['scn']
-            k = (s['vclass'], s['binding'], s['enc'], s['signResp'], s['skew'], s['authnCtx'], s['idpPolicy'], s['unknownAttr'], s['sessionExpiry'], s['tz'])
+            k = (s['vclass'], s['binding'], s['enc'], s['signResp'], s['skew'], s['authnCtx'], s['idpPolicy'], s['unknownAttr'], s['sessionExpiry'], s['tz'], s['keyStyle'])
             if k not in seen:
                 seen.add(k)
                 keep.append(c)
@@ -201,10 +204,11 @@ def main():
             problems.append('subject %r read as %r' % (out['subject'], out.get('name_id')))
         expected = {}
         # an SP that asks for nothing (the unknown-attribute scenarios) is sent the whole identity
-        for local in (sorted(out['identity']) if scn['unknownAttr'] else case['expectedAttrs']):
+        for local in (sorted(CANON.get(k, k) for k in out['identity']) if scn['unknownAttr'] else case['expectedAttrs']):
             wire = to_map.get(local)
             back = fro_map.get(wire, local) if wire else local
-            expected[back] = sorted(v.strip() for v in out['identity'][local])
+            given = dict((k.lower(), v) for k, v in out['identity'].items())
+            expected[back] = sorted(v.strip() for v in given[local.lower()])
         got = dict((k, sorted(v)) for k, v in (out.get('ava') or {}).items())
         if got != expected:
             problems.append('attributes read %s, asserted %s' % (json.dumps(got)[:300], json.dumps(expected)[:300]))
